@@ -32,7 +32,7 @@ func newGateWorld(webui []string) *vGateWorld {
 	w.st.Config.Base.AutomationAdmins = []string{"auto"}
 	w.st.Config.Base.AutomationUsers = []string{"svc"}
 	w.st.Config.Base.EnableLocalTOTP = true
-	w.st.Config.DenyTrustData.KeyDenyFPsshSha256 = []string{vFullFP(&vAttackerKey.PublicKey)}
+	w.st.Config.DenyTrustData.KeyDenyFPsshSha256 = vDenyList()
 	w.st.Config.OpenIDConnectIDP.Client = []OpenIDConnectClientConfig{
 		{ClientID: vClientA, ClientSecret: vSecretA, AllowedRedirectDomains: []string{"example.org"}}}
 	for _, u := range []string{"root", "auto", "svc"} {
